@@ -430,9 +430,29 @@ class Forest(object):
                 except Exception:
                     return Applied('skipped')
                 self.all.extend(new)
-                a = Applied('set_children' + (':bad' if op.get('bad') else ''), parent, new)
+                tag = ''
+                if op.get('own') and len(parent.children.list):
+                    # one of the element's own children is part of the new list
+                    new.insert(0, parent.children.list[op['own'] % len(parent.children.list)])
+                    tag += ':own'
+                if op.get('steal') is not None:
+                    # so is a child that sits in another element (of the same kind of parent, so that it may fit)
+                    other = self.resolve(op['steal'])
+                    if other.parent is not None and other.parent is not parent and type(other).__name__ == child_cls and \
+                            not self._is_ancestor(other, parent) and other not in self.msgs:
+                        new.insert(0, other)
+                        tag += ':taken'
+                a = Applied('set_children' + tag + (':bad' if op.get('bad') else ''), parent, [x for x in new if x.parent is not parent])
                 try:
-                    parent.children = new
+                    if op.get('alias') and tag == '' and not op.get('bad'):
+                        # the child list object of another element handed over as it is
+                        donor = self.resolve(op['alias'], True)
+                        if donor is parent or type(donor).__name__ != cls or self._is_ancestor(donor, parent) or self._is_ancestor(parent, donor):
+                            return Applied('skipped')
+                        a = Applied('set_children:list-of-another-element', parent)
+                        parent.children = donor.children
+                    else:
+                        parent.children = new
                 except Exception as e:
                     a.raised = e
                 return a
@@ -649,6 +669,9 @@ def op_strategy():
         st.fixed_dictionaries({'op': st.sampled_from(['remove', 'pop', 'del_child']), 'parent': SHALLOW, 'i': st.integers(-1, 4)}),
         st.fixed_dictionaries({'op': st.just('set_children'), 'parent': SHALLOW, 'n': st.integers(0, 3), 'k': st.integers(0, 20),
                                'bad': st.sampled_from([0, 0, 1, 2])}),
+        st.fixed_dictionaries({'op': st.just('set_children'), 'parent': SHALLOW, 'n': st.integers(0, 2), 'k': st.integers(0, 20),
+                               'bad': st.sampled_from([0, 1, 1, 2]), 'own': st.integers(0, 3), 'steal': st.one_of(st.none(), REF),
+                               'alias': st.one_of(st.none(), st.none(), SHALLOW)}),
         st.fixed_dictionaries({'op': st.just('value'), 'target': REF, 'k': k9}),
         st.fixed_dictionaries({'op': st.just('datatype'), 'target': REF, 'k': k9}),
         st.fixed_dictionaries({'op': st.just('msg_value'), 'r': st.integers(0, 2), 'k': st.integers(0, 30)}),
